@@ -81,4 +81,8 @@ StartsAtOrigin  == (Casting /\ k = 0) => cell = oIdx
 EndsAtEnd       == (Casting /\ k = L1) => (ContainsEnd(cell) /\ (~OnBorder(e) => cell = eIdx))
 CanAlwaysStep   == (Casting /\ k < L1) => \E a \in Axes : Minimal(a)
 C14 == CellsInGrid /\ CellsOnSegment /\ StartsAtOrigin /\ EndsAtEnd /\ CanAlwaysStep
+(* Generic (non-lattice) rays on large grids with decimal resolutions (recorded by the harness against the nominal grid in double): *)
+(* the cast starts in the origin's cell, ends in the end point's cell, steps through face-adjacent cells, takes no detour (its length *)
+(* is the Manhattan distance of the two cells plus one) and every cell is met by the segment.                                       *)
+GenericRayOK(t) == t.startOK /\ t.endOK /\ t.adjacent /\ t.meets /\ t.minimal
 =============================================================================
